@@ -217,6 +217,27 @@ CHECKS = {
    note="Identities between formulas of the current source and the expansion derived in the rule (sympy exact arithmetic); trusted: clang front end, sympy. Not "
         "decided: floating-point error of the compiled code, the rate of convergence of finite clusters, induced-dipole iterations. xtp is parsed, not built."),
 }
+# rules added in rounds h/i (DESIGN.md section 9.8)
+EXTRA = {
+ "C01": " Also: the mass obligation holds for every bead map (sphere and ellipsoid), no return precedes the setPos/setVel/setF/setMass write-back (R1.2), and the definition/mapping classes keep no mutable function-local static state (R1.7).",
+ "C03": " Also: besides the cutoff comparison no comparison on the distance or connection vector gates the insertion (R3.1 no-extra-distance-filter); exclusion helpers returning a disjunction and conjuncts of a negated conjunction are followed.",
+ "C04": " Also: the running indices of the per-group IMC output (range start of <group>.idx, row offset) restart for every group (R4.10).",
+ "C07": " Also: a shortcut a derivative takes for a special parameter value (lam_k == c) must equal the derivative of CalculateF at that parameter value (R7.3 by cases).",
+ "C08": " Also: by cases over a reader's mode flags every path that writes a bead and returns normally passes a throwing atom-count guard (inline or through a file-local helper) (R8.2 count-guard-path).",
+ "C10": " Also: Job::UpdateFrom takes status, host, time, output and error from the external copy under conditions on the external copy only (R10.5 update-from).",
+ "C11": " Also: the arithmetic convert_impl converts the whole string - no prefix parser (stod/stoi/strtod/atof/sscanf) with an unchecked end position (R11.9).",
+ "C12": " Also: Spline::getInterval finds the interval by order comparisons only (a recognised scan returns the last knot not above r), or corrects an arithmetic guess by loops in both directions (R12.10).",
+ "C13": " Also: accessors and const members of HistogramNew never reach a function that writes or re-creates the bin table (R13.6).",
+ "C14": " Also: GNode::MakeHuffTree rebuilds the tree from the current event list on every call, or every mutator of events_ resets the cache flag (R14.7); AddEventfromQmPair is decided by cases of the starting segment.",
+ "C15": " Also: ApplyInducedField_site feeds only the induced dipole of the source into the Thole tensor product (R15.7).",
+ "C17": " Also: every container reader (matrix, vector<T>, vector<string>, vector<Vector3d>) sets the size of its target from the stored extent before every normal return (R17.3 reader-target-reset).",
+ "C18": " Also: a literal shortcut in bead selection (== instead of wildcmp) must be guarded by a wildcard test that covers both '*' and '?' (R18.5).",
+ "C19": " Also: the column tables of CsgFunctions.pm readin_table / readin_table_err are read off the subs' op-trees: x, y, (error) from columns 0, 1, (2), flag from the last column, which is also the validated one (R19.3).",
+}
+for k_, t_ in EXTRA.items():
+    CHECKS[k_]["text"] = CHECKS[k_]["text"].rstrip() + t_
+CHECKS["C19"]["note"] = CHECKS["C19"]["note"].replace("CsgFunctions.pm's parsing loops", "CsgFunctions.pm's saveto_* printf formats")
+CHECKS["C12"]["note"] = CHECKS["C12"]["note"].replace("getInterval at knots, ", "")
 NA = {}
 m = {"version": 1, "setup_cmd": "./setup.sh",
      "hooks": {"guard": "VOTCA_VERIF", "enable": "not used - the analysis reads unmodified sources; no hooks in /repo",
